@@ -135,6 +135,59 @@ pub fn run(ctx: &Ctx) {
         },
         check_pair,
     );
+    let max_gap = t.pick(3000u64, 10_000);
+    ctx.enumerated(
+        "gap-sweep",
+        "pair",
+        (max_gap + 1) * 8,
+        true,
+        &format!("EXHAUSTIVE: every scale gap 0..={} in both directions x 4 sign pairs, short operands", max_gap),
+        move |i| {
+            let gap = (i % (max_gap + 1)) as i64;
+            let k = i / (max_gap + 1);
+            let (a, b) = ([ "982451653", "7", "123456789012345678901", "1000000007"][(i % 4) as usize], ["37", "48112959837082048697", "3", "999"][((i / 4) % 4) as usize]);
+            let a = if k & 1 == 1 { format!("-{}", a) } else { a.to_string() };
+            let b = if k & 2 == 2 { format!("-{}", b) } else { b.to_string() };
+            if k & 4 == 4 { Some(Pair { a: D::new(a, gap), b: D::new(b, 0) }) } else { Some(Pair { a: D::new(a, 0), b: D::new(b, gap) }) }
+        },
+        check_pair,
+    );
+    ctx.enumerated(
+        "near-twin-sweep",
+        "pair",
+        max_gap * 12 * 4,
+        true,
+        &format!("EXHAUSTIVE: every scale gap 1..={} x divisors {{1, 2, 8, 1024, 8e3, 2^64, 2^400, 3, 37, 999, 10^9+7, 2^32-1}} x dividend = divisor re-represented at the finer scale + {{0, 1, 12345, divisor-1}} units; sign alternates", max_gap),
+        move |i| {
+            let gap = 1 + (i % max_gap) as u32;
+            let k = i / max_gap;
+            let bi: num_bigint::BigInt = match k % 12 {
+                0 => 1.into(),
+                1 => 2.into(),
+                2 => 8.into(),
+                3 => 1024.into(),
+                4 => 8000.into(),
+                5 => num_bigint::BigInt::from(1) << 64,
+                6 => num_bigint::BigInt::from(1) << 400,
+                7 => 3.into(),
+                8 => 37.into(),
+                9 => 999.into(),
+                10 => 1_000_000_007.into(),
+                _ => 4_294_967_295u64.into(),
+            };
+            let delta: num_bigint::BigInt = match (k / 12) % 4 {
+                0 => 0.into(),
+                1 => 1.into(),
+                2 => 12345.into(),
+                _ => &bi - 1,
+            };
+            let ai = &bi * num_bigint::BigInt::from(10u8).pow(gap) + delta;
+            let neg = i % 2 == 1;
+            let a = D::new(if neg { format!("-{}", ai) } else { ai.to_string() }, gap as i64);
+            Some(Pair { a, b: D::new(bi.to_string(), 0) })
+        },
+        check_pair,
+    );
     let max_len = t.pick(400usize, 2000);
     ctx.generated("random-pairs", "pair", t.pick(400_000, 3_000_000), "1..max digits, gaps 0..10^4 both directions, zero divisors, twins, exact multiples, a = -b", move || pair_strategy(max_len), check_pair);
 }
